@@ -1,2 +1,2 @@
-/* fid: volatile-incdec-store (fixed b1dc71f); msg: volatile store is not yet supported */
+/* fid: volatile-incdec-store (fixed aa26fd4); msg: volatile store is not yet supported */
 volatile int v; void f(void){ v++; }
